@@ -413,6 +413,17 @@ def finish(ctx, proof_ok, level='proof', checker_cmd='', trusted=None, rule=''):
     return 1 if violations else 0
 
 
+def generated_digest():
+    """digest of lean/NumqiModel/Generated/*.lean (the translators' output)"""
+    import hashlib
+    h = hashlib.sha256()
+    d = os.path.join(LEAN, 'NumqiModel', 'Generated')
+    for f in sorted(os.listdir(d)) if os.path.isdir(d) else []:
+        if f.endswith('.lean'):
+            h.update(f.encode()); h.update(open(os.path.join(d, f), 'rb').read())
+    return h.hexdigest()
+
+
 def run_check(pid, mod, tier, seed, replay=None):
     ctx = Ctx(pid, tier, seed)
     ctx.extra['theorem_files'] = list(mod.THEOREM_FILES)
@@ -432,9 +443,21 @@ def run_check(pid, mod, tier, seed, replay=None):
             print(f"replay: {payload.get('key')} no longer fails ({ctx.probe_evals} probe evaluations)")
             return 0
         with build_lock():
-            if hasattr(mod, 'translate'):
-                mod.translate(ctx)
-            proof_ok = audit(ctx, mod.THEOREM_FILES, getattr(mod, 'GREP_FILES', ()))
+            # the generated Lean data must be the same files from the translators to the end of the audit; every writer in
+            # /verif takes the lock, so a change can only come from a process that bypasses it: retry once, then give up (exit 2)
+            for attempt in (0, 1):
+                if attempt:
+                    ctx.proof.update(theorems={}, grep_hits=[])
+                if hasattr(mod, 'translate'):
+                    mod.translate(ctx)
+                h0 = generated_digest()
+                proof_ok = audit(ctx, mod.THEOREM_FILES, getattr(mod, 'GREP_FILES', ()))
+                if generated_digest() == h0:
+                    break
+                ctx.note('generated Lean data changed between translation and audit (a writer bypassed the project lock); retried')
+            else:
+                print(f'[{pid}] generated Lean data was modified by another process during the audit, twice', file=sys.stderr)
+                return 2
         if not proof_ok:
             ctx.note('proof obligations not all discharged: ' + json.dumps({k: v for k, v in ctx.proof['theorems'].items() if v is None or not set(v) <= ALLOWED_AXIOMS}))
         try:
